@@ -26,8 +26,14 @@
        Mat_invert_colswap     body of `if (j != (c = perm[j]))`  check invert_colswap
    and under -DMI_OUTLINE the preprocessor cuts the same text out of the enclosing function between two injection points
    pinned by the extractor and puts ONE CALL of the block function there, which dfcc replaces by the contract proved in
-   the other check (check invert for Mat_invert itself).  Without -DMI_OUTLINE the generated Mat_invert is the whole
-   function: that is what the bounded checks execute.
+   the other check.  Without -DMI_OUTLINE the generated Mat_invert is the whole function: that is what the bounded
+   checks execute.
+   STATUS OF THE COMPOSITION: the contract, loop contracts and harness (h_invert) of the ENCLOSING function Mat_invert
+   (loops 1, 2, 8, 9, 10, 12, 13 with the three outlined calls) are written below, but its check is NOT registered: CBMC
+   runs out of memory (24 GB) in the propositional reduction (38649 SSA steps; the array constraints of eight index vectors
+   with nested index terms).  What is proved unbounded is therefore each block against its contract; that the blocks'
+   preconditions hold where Mat_invert reaches them (in particular that perm / inv_perm are mutually inverse when the
+   undo starts) is written down as loop invariants but not machine-checked.
 
    All universally quantified facts are used quantifier-free: proved for the harness-chosen arbitrary gv_k0 / gv_j0 and
    instantiated with GV_INST (index asserted in range) at the program's own indices, always at a point where the arrays
@@ -38,6 +44,7 @@
 
 //@ prelude
 #include "../matvec_index/matvec_spec.h"
+#define MI_OPAQUE 1
 #include "mi_lemmas.h"
 int gv_exc;
 struct IArray { Index *rep; Index sz; };   /* Array<Index,Index,Exc> : MemRep<Index,Index,Exc> */
@@ -48,6 +55,13 @@ Index gv_gi, gv_gj; /* ghost: arbitrary element of the remaining submatrix (posi
 int gv_sing;   /* ghost: verdict "the largest remaining element is not greater than tol" of the last step */
 Index gv_off;  /* ghost: offset of the element the last Mat::entry call addressed (see mi_at) */
 
+/* specification text inside extracted bodies (loop contracts, ghost statements) is exempt from the automatic safety
+   checks, like the function contracts (extract.py does that for those): only the repository's text generates them */
+#define MI_SPEC_BEGIN _Pragma("CPROVER check push") _Pragma("CPROVER check disable \"pointer\"") _Pragma("CPROVER check disable \"bounds\"") \
+  _Pragma("CPROVER check disable \"signed-overflow\"") _Pragma("CPROVER check disable \"conversion\"") \
+  _Pragma("CPROVER check disable \"pointer-primitive\"") _Pragma("CPROVER check disable \"div-by-zero\"") \
+  _Pragma("CPROVER check disable \"pointer-overflow\"")
+#define MI_SPEC_END _Pragma("CPROVER check pop")
 #define MI_ABS(x) ((x) >= 0 ? (x) : -(x))                 /* MatVecBase::Abs */
 #define MI_BIGGER(a, b) (MI_ABS(a) > MI_ABS(b))            /* the comparison full pivoting is defined by */
 #define REP(A) ((A)->base.mem.rep)
@@ -81,7 +95,7 @@ static inline Float *mi_at(struct Mat *self, Index i, Index j)
 /* the matrix object as every block sees it */
 #define MI_WF(self, N)                                                                               \
   (__CPROVER_rw_ok(self, sizeof(struct Mat)) && WF_MAT(self) && (self)->pentry == REP(self) &&       \
-   (self)->base.row_ == (N) && (self)->base.col_ == (N) && (N) > 0 && !SAME(REP(self), self))
+   (self)->base.row_ == (N) && (self)->base.col_ == (N) && (N) > 0 && !SAME(REP(self), self) && MI_TAB_FOR(N))
 #define MI_IARR(a, N) ((a).sz == (N) && __CPROVER_rw_ok((a).rep, (size_t)(N) * sizeof(Index)) && OFF((a).rep) == 0)
 #define MI_GARR(p, N) (__CPROVER_rw_ok(p, (size_t)(N) * sizeof(Index)) && OFF(p) == 0)
 #define MI_DIFF3(a, b, c) (!SAME(a, b) && !SAME(a, c) && !SAME(b, c))
@@ -96,11 +110,19 @@ static inline Float *mi_at(struct Mat *self, Index i, Index j)
 #define MI_ID(x) (aR[x] == (x) && aC[x] == (x) && gv_GR[x] == (x) && gv_GC[x] == (x))
 #define MI_PRANGE(PR, PC) (INR(PR) && INR(PC))
 #define MI_SUB(a, b) (step <= (a) && (a) < N && step <= (b) && (b) < N)   /* inside the remaining submatrix */
+/* element (r,c) of the matrix through the opaque row-start table (long: no int wrap-around in specification text) */
+#define MI_ELOFF(r, c) ((long)mi_rowoff[r] + (c))
+#define MI_EL_OK(r, c) (0 <= MI_ELOFF(r, c) && MI_ELOFF(r, c) < self->base.mem.sz)
+#define MI_EL(r, c) (REP(self)[MI_ELOFF(r, c)])
+/* every read is guarded by the range facts that make it a defined read: loop invariants are evaluated with the automatic
+   safety checks ON (they are injected into the extracted body) */
 #define MI_PIVF(PV, PR, PC)                                                                          \
-  ((PV) == (PV) && ((PV) == 0 || (MI_SUB(PR, PC) && (PV) == REP(self)[aR[PR] * self->base.col_ + aC[PC]])))
+  ((PV) == (PV) && ((PV) == 0 || (MI_SUB(PR, PC) && INR(aR[PR]) && INR(aC[PC]) && MI_EL_OK(aR[PR], aC[PC]) &&  \
+                                   (PV) == MI_EL(aR[PR], aC[PC]))))
 /* the ghost element as the search of this step sees it */
 #define MI_GVAL_OK                                                                                   \
-  (MI_SUB(gv_gi, gv_gj) ==> (INR(aR[gv_gi]) && INR(aC[gv_gj]) && MV_SAMEVAL(gv_gval, REP(self)[aR[gv_gi] * self->base.col_ + aC[gv_gj]])))
+  (MI_SUB(gv_gi, gv_gj) ==> (INR(aR[gv_gi]) && INR(aC[gv_gj]) && MI_EL_OK(aR[gv_gi], aC[gv_gj]) &&    \
+                             MV_SAMEVAL(gv_gval, MI_EL(aR[gv_gi], aC[gv_gj]))))
 
 /* cycle-following undo: at loop position v the not yet placed positions / values v..N-1 */
 #define MI_U(v, a, b)                                                                                \
@@ -161,7 +183,7 @@ static inline Float *mi_at(struct Mat *self, Index i, Index j)
 /* cycle following: instantiate the loop invariant (which holds for the arbitrary gv_j0, gv_k0) at j0 := k0 := v */
 #define MI_HEAD_UNDO(v) GV_INST(INR(v), MI_U(v, v, v));
 #else
-#define MI_GHOST_ARRAYS
+#define MI_GHOST_ARRAYS Index *gv_GR = 0, *gv_GC = 0; /* named by the (unused) loop contracts only */
 #define MI_TAIL1
 #define MI_PRE_SEARCH
 #define MI_HEAD_II
@@ -188,20 +210,22 @@ MV_CONTRACT_MatBase_cols
 
 /* Mat::entry(i,j), 0-based: pentry + i*col_ + j lies inside the buffer (nonlinear bound: mi_lemma_entry_bounds, proved by z3) */
 //@ contract Mat_entry
-__CPROVER_requires(WF_MAT(self) && self->pentry == REP(self))
+__CPROVER_requires(WF_MAT(self) && self->pentry == REP(self) && MI_TAB_FOR(self->base.col_))
 __CPROVER_requires(0 <= i && i < self->base.row_ && 0 <= j && j < self->base.col_)
 __CPROVER_assigns(gv_off)
-__CPROVER_ensures(__CPROVER_return_value == REP(self) + gv_off && gv_off == i * self->base.col_ + j)
+__CPROVER_ensures(__CPROVER_return_value == REP(self) + gv_off && gv_off == (long)mi_rowoff[i] + j)
 __CPROVER_ensures(0 <= gv_off && gv_off < self->base.mem.sz)
 //@ entry Mat_entry
 GV_CANARY("Mat_entry entry");
-GV_GHOST(mi_lemma_entry_bounds(self->base.row_, self->base.col_, i, j); gv_off = i * self->base.col_ + j;) /* row-major, 0-based */
+#ifndef MI_BOUNDED
+GV_GHOST(mi_lemma_entry_bounds(self->base.row_, self->base.col_, i, j); gv_off = mi_rowoff[i] + j;) /* row-major, 0-based: mi_rowoff[i] is i*cols */
+#endif
 //@ end
 
 /* ---- Mat::invert (enclosing function; the step body and the two swap blocks are outlined in the proof check) ------ */
 //@ contract Mat_invert
 __CPROVER_requires(WF_MAT(self) && __CPROVER_rw_ok(self, sizeof(struct Mat)) && gv_exc == 0)
-__CPROVER_requires(!SAME(REP(self), self))
+__CPROVER_requires(!SAME(REP(self), self) && MI_TAB_FOR(self->base.col_))
 __CPROVER_assigns(gv_off, gv_exc, gv_sing;
                   self->base.row_ == self->base.col_: self->pentry;
                   self->base.row_ == self->base.col_: __CPROVER_object_whole(REP(self)))
@@ -214,20 +238,24 @@ gv_sing = 0;
 //@ pre Mat_invert 1
 MI_GHOST_ARRAYS
 //@ loop Mat_invert 1
+MI_SPEC_BEGIN
 __CPROVER_assigns(l; N > 0: __CPROVER_object_whole(aR); N > 0: __CPROVER_object_whole(aC);
                   __CPROVER_object_whole(gv_GR), __CPROVER_object_whole(gv_GC))
 __CPROVER_loop_invariant(0 <= l && l <= N && ((0 <= gv_k0 && gv_k0 < l) ==> MI_ID(gv_k0)) &&
                          ((0 <= gv_j0 && gv_j0 < l) ==> MI_ID(gv_j0)))
 __CPROVER_decreases(N - l)
+MI_SPEC_END
 //@ tail Mat_invert 1
 MI_TAIL1
 //@ loop Mat_invert 2
+MI_SPEC_BEGIN
 __CPROVER_assigns(gv_off, step, p_row, p_col, gv_exc, gv_sing;
                   N > 0: __CPROVER_object_whole(aR); N > 0: __CPROVER_object_whole(aC);
                   __CPROVER_object_whole(gv_GR), __CPROVER_object_whole(gv_GC), __CPROVER_object_whole(REP(self)))
 __CPROVER_loop_invariant(0 <= step && step <= N && gv_exc == 0 && gv_sing == 0 &&
                          (N > 0 ==> MI_PRANGE(p_row, p_col)) && MI_PERMS)
 __CPROVER_decreases(N - step)
+MI_SPEC_END
 //@ at Mat_invert step_begin
 #ifdef MI_OUTLINE
 Mat_invert_step(self, N, step, tol, indr, indc, &p_row, &p_col, gv_GR, gv_GC);
@@ -236,26 +264,32 @@ if (gv_exc) return;
 //@ at Mat_invert step_end
 #endif
 //@ loop Mat_invert 8
+MI_SPEC_BEGIN
 __CPROVER_assigns(i; N > 0: __CPROVER_object_whole(aIR); N > 0: __CPROVER_object_whole(aIC))
 __CPROVER_loop_invariant(0 <= i && i <= N &&
                          ((INR(gv_k0) && gv_GR[gv_k0] < i) ==> aIR[gv_k0] == gv_GR[gv_k0]) &&
                          ((INR(gv_k0) && gv_GC[gv_k0] < i) ==> aIC[gv_k0] == gv_GC[gv_k0]))
 __CPROVER_decreases(N - i)
+MI_SPEC_END
 //@ head Mat_invert 8
 MI_HEAD_INV
 //@ loop Mat_invert 9
+MI_SPEC_BEGIN
 __CPROVER_assigns(i; N > 0: __CPROVER_object_whole(aPM); N > 0: __CPROVER_object_whole(aIP))
 __CPROVER_loop_invariant(MI_PERM_INV(aR, gv_GR, aC))
 __CPROVER_decreases(N - i)
+MI_SPEC_END
 //@ head Mat_invert 9
 MI_HEAD_PERM(aR, gv_GR, aIC, aC, gv_GC)
 //@ pre Mat_invert 10
 MI_PRE_UNDO(aR, gv_GR, aC, gv_GC)
 //@ loop Mat_invert 10
+MI_SPEC_BEGIN
 __CPROVER_assigns(gv_off, i, r; N > 0: __CPROVER_object_whole(aPM); N > 0: __CPROVER_object_whole(aIP);
                   __CPROVER_object_whole(REP(self)))
 __CPROVER_loop_invariant(MI_UNDO_INV(i))
 __CPROVER_decreases(N - i)
+MI_SPEC_END
 //@ head Mat_invert 10
 MI_HEAD_UNDO(i)
 //@ pre Mat_invert 11
@@ -265,18 +299,22 @@ Mat_invert_rowswap(self, N, i, r, perm, inv_perm);
 //@ at Mat_invert rowswap_end
 #endif
 //@ loop Mat_invert 12
+MI_SPEC_BEGIN
 __CPROVER_assigns(i; N > 0: __CPROVER_object_whole(aPM); N > 0: __CPROVER_object_whole(aIP))
 __CPROVER_loop_invariant(MI_PERM_INV(aC, gv_GC, aR))
 __CPROVER_decreases(N - i)
+MI_SPEC_END
 //@ head Mat_invert 12
 MI_HEAD_PERM(aC, gv_GC, aIR, aR, gv_GR)
 //@ pre Mat_invert 13
 MI_PRE_UNDO(aC, gv_GC, aR, gv_GR)
 //@ loop Mat_invert 13
+MI_SPEC_BEGIN
 __CPROVER_assigns(gv_off, j, c; N > 0: __CPROVER_object_whole(aPM); N > 0: __CPROVER_object_whole(aIP);
                   __CPROVER_object_whole(REP(self)))
 __CPROVER_loop_invariant(MI_UNDO_INV(j))
 __CPROVER_decreases(N - j)
+MI_SPEC_END
 //@ head Mat_invert 13
 MI_HEAD_UNDO(j)
 //@ pre Mat_invert 14
@@ -312,10 +350,12 @@ Float gv_gval = 0; /* ghost: the element (gv_gi, gv_gj) as the search of this st
 //@ pre Mat_invert_step 1
 MI_PRE_SEARCH
 //@ loop Mat_invert_step 1
+MI_SPEC_BEGIN
 __CPROVER_assigns(gv_off, ii, pivot, *p_row__p, *p_col__p)
 __CPROVER_loop_invariant(step <= ii && ii <= N && MI_PRANGE(*p_row__p, *p_col__p) && MI_PIVF(pivot, *p_row__p, *p_col__p) &&
                          ((MI_SUB(gv_gi, gv_gj) && gv_gi < ii) ==> !MI_BIGGER(gv_gval, pivot)))
 __CPROVER_decreases(N - ii)
+MI_SPEC_END
 //@ head Mat_invert_step 1
 MI_HEAD_II
 //@ at Mat_invert_step srow_begin
@@ -331,13 +371,17 @@ MI_BEFORE_SWAPS(*p_row__p, *p_col__p)
 //@ at Mat_invert_step after_swaps
 MI_AFTER_SWAPS(*p_row__p, *p_col__p)
 //@ loop Mat_invert_step 3
+MI_SPEC_BEGIN
 __CPROVER_assigns(gv_off, j, __CPROVER_object_whole(REP(self)))
 __CPROVER_loop_invariant(0 <= j && j <= N)
 __CPROVER_decreases(N - j)
+MI_SPEC_END
 //@ loop Mat_invert_step 4
+MI_SPEC_BEGIN
 __CPROVER_assigns(gv_off, row, __CPROVER_object_whole(REP(self)))
 __CPROVER_loop_invariant(0 <= row && row <= N)
 __CPROVER_decreases(N - row)
+MI_SPEC_END
 //@ head Mat_invert_step 4
 MI_HEAD_ROW
 //@ at Mat_invert_step elim_begin
@@ -366,10 +410,12 @@ GV_CANARY("Mat_invert_search_row entry");
 Index i, jj;
 Float e;
 //@ loop Mat_invert_search_row 1
+MI_SPEC_BEGIN
 __CPROVER_assigns(gv_off, jj, e, *pivot__p, *p_row__p, *p_col__p)
 __CPROVER_loop_invariant(step <= jj && jj <= N && MI_PRANGE(*p_row__p, *p_col__p) && MI_PIVF(*pivot__p, *p_row__p, *p_col__p) &&
                          ((MI_SUB(gv_gi, gv_gj) && (gv_gi < ii || (gv_gi == ii && gv_gj < jj))) ==> !MI_BIGGER(gv_gval, *pivot__p)))
 __CPROVER_decreases(N - jj)
+MI_SPEC_END
 //@ head Mat_invert_search_row 1
 MI_HEAD_JJ
 //@ end
@@ -385,9 +431,11 @@ GV_CANARY("Mat_invert_elim entry");
 Index i, j;
 Float e;
 //@ loop Mat_invert_elim 1
+MI_SPEC_BEGIN
 __CPROVER_assigns(gv_off, j, __CPROVER_object_whole(REP(self)))
 __CPROVER_loop_invariant(0 <= j && j <= N)
 __CPROVER_decreases(N - j)
+MI_SPEC_END
 //@ end
 
 /* ---- undo, one cycle step: bodies of `if (i != (r = perm[i]))` and `if (j != (c = perm[j]))` -------------------------
@@ -404,9 +452,11 @@ GV_CANARY("Mat_invert_rowswap entry");
 Index j;
 Float e;
 //@ loop Mat_invert_rowswap 1
+MI_SPEC_BEGIN
 __CPROVER_assigns(gv_off, j, e, __CPROVER_object_whole(REP(self)))
 __CPROVER_loop_invariant(0 <= j && j <= N)
 __CPROVER_decreases(N - j)
+MI_SPEC_END
 //@ contract Mat_invert_colswap
 __CPROVER_requires(MI_WF(self, N) && MI_IARR(perm, N) && MI_IARR(inv_perm, N))
 __CPROVER_requires(MI_DIFF3(aPM, aIP, REP(self)) && MI_DIFF_FROM(self, aPM, aIP, REP(self)))
@@ -418,9 +468,11 @@ GV_CANARY("Mat_invert_colswap entry");
 Index i;
 Float e;
 //@ loop Mat_invert_colswap 1
+MI_SPEC_BEGIN
 __CPROVER_assigns(gv_off, i, e, __CPROVER_object_whole(REP(self)))
 __CPROVER_loop_invariant(0 <= i && i <= N)
 __CPROVER_decreases(N - i)
+MI_SPEC_END
 //@ end
 
 //@ harness
@@ -429,6 +481,7 @@ static void mk_mat(struct Mat *A, Index rows, Index cols)
 {
   A->base.row_ = rows;
   A->base.col_ = cols;
+  mi_tab_cols = cols; /* ghost: mi_rowoff[] names the row starts of THIS matrix */
   Index sz = rows * cols;
   A->base.mem.sz = sz;
   Float *m = malloc((size_t)sz * sizeof(Float));
@@ -541,6 +594,81 @@ void h_swap(void)
   Mat_invert_colswap(&A, N, v, w, perm, inv_perm);
 #endif
   GV_CANARY("h_swap end");
+}
+#endif
+
+#ifdef MI_BOUNDED
+/* ---- TIER B: exact-arithmetic check of inv(A) A = I --------------------------------------------------------------------
+   A = P U, U upper triangular with the power-of-two diagonal 4^(d-1), .., 4, 1 and SYMBOLIC integer entries |u| <= 2
+   above it, P the permutation matrix number MI_PERM (lexicographic order; every permutation of d <= 3 -- resp. 4 -- has a
+   check of its own, constant data on its path).  Full pivoting then finds the pivots 4^(d-1), .., 4, 1 in this order
+   whatever the u are (each exceeds every other remaining element), so every division is by a power of two and every
+   intermediate value is a dyadic rational of a few bits: IEEE arithmetic is exact (checked natively over ALL inputs of
+   the class, d <= 4, with an exact rational Float through the real template: see the unit's report), and the oracle is `==`.
+   MI_CLASS=0 is the second class: unit diagonal, |u| <= 1 (ties in the pivot search, data-dependent pivot order; exact
+   for d <= 3 only -- also checked natively over all inputs). */
+#ifndef MI_D
+#define MI_D 3
+#endif
+#ifndef MI_PERM
+#define MI_PERM 0
+#endif
+#ifndef MI_CLASS
+#define MI_CLASS 1
+#endif
+#define MI_NU (MI_D * (MI_D - 1) / 2 + 1)
+void h_exact(void)
+{
+  const Index d = MI_D;
+  /* the MI_PERM-th permutation of 0..d-1 in lexicographic order (factorial number system), constant */
+  Index p[MI_D], pool[MI_D];
+  Index k = MI_PERM, f = 1, a, b, c;
+  for (a = 2; a < d; a++) f *= a;           /* (d-1)! */
+  for (a = 0; a < d; a++) pool[a] = a;
+  for (a = 0; a < d; a++) {
+    Index q = k / f;
+    k = k % f;
+    p[a] = pool[q];
+    for (b = q; b + 1 < d - a; b++) pool[b] = pool[b + 1];
+    if (d - 1 - a > 0) f = f / (d - 1 - a);
+  }
+  /* U */
+  Float U[MI_D][MI_D];
+  Index u[MI_NU];
+  Index n = 0;
+  for (a = 0; a < d; a++)
+    for (b = 0; b < d; b++) {
+      if (b < a) U[a][b] = 0;
+      else if (b == a) U[a][b] = (MI_CLASS == 0) ? 1 : (Float)(1 << (2 * (d - 1 - a)));
+      else {
+        Index v = u[n];
+        __CPROVER_assume((MI_CLASS == 0) ? (-1 <= v && v <= 1) : (-2 <= v && v <= 2));
+        U[a][b] = (Float)v;
+        n++;
+      }
+    }
+  struct Mat A, B;
+  mk_mat(&A, d, d);
+  mk_mat(&B, d, d);
+  for (a = 0; a < d; a++)
+    for (b = 0; b < d; b++) {
+      A.base.mem.rep[a * d + b] = U[p[a]][b];   /* A = P U: row a of A is row p[a] of U */
+      B.base.mem.rep[a * d + b] = U[p[a]][b];
+    }
+  A.pentry = NULL;
+  B.pentry = NULL;
+  gv_exc = 0;
+  Mat_invert(&B, GV_EPS * 1000);              /* the default tolerance of Mat::invert */
+  __CPROVER_assert(gv_exc == 0, "a well-conditioned matrix is inverted without an exception");
+  if (gv_exc == 0) {
+    for (a = 0; a < d; a++)
+      for (b = 0; b < d; b++) {
+        Float s = 0;
+        for (c = 0; c < d; c++) s += B.base.mem.rep[a * d + c] * A.base.mem.rep[c * d + b];
+        __CPROVER_assert(s == (a == b ? 1.0 : 0.0), "inv(A) A = I, exactly (exact-arithmetic input class)");
+      }
+  }
+  GV_CANARY("h_exact end");
 }
 #endif
 //@ end
